@@ -18,6 +18,7 @@ import itertools
 import os
 import re
 import threading
+import time
 from fractions import Fraction
 
 import classgen
@@ -39,7 +40,8 @@ K16 = "refusal:NormalizingException@conditions_normalizer.py:_try_abstract_faile
 K17 = "refusal:ArithmConversionException@atom_cond.py:to_arithm:non-integer-finite-value-in-condition"
 K18 = "refusal:KeyError@rec_builder.py:_get_last_assign_index:goal-over-folded-loop-constant"
 K19 = "refusal:NormalizingException@atom_cond.py:get_normalized:fixed-loop-constant-as-atom-variable"
-KNOWN_SHAPES = {K12: "nested-reassign", K16: "categorical-in-branch", K17: "nonint-values", K18: "goal-over-constant", K19: "const-in-cond"}
+K20 = "refusal:NormalizingException@conditions_normalizer.py:_try_abstract_failed_condition:simultaneous-assignment-inside-a-branch-of-a-condition-variable:_t-temporary-untyped"
+KNOWN_SHAPES = {K20: "simult-in-branch", K12: "nested-reassign", K16: "categorical-in-branch", K17: "nonint-values", K18: "goal-over-constant", K19: "const-in-cond"}
 
 
 # ---- class membership, decided in the kernel --------------------------------------------------
@@ -91,6 +93,8 @@ def refusal_signature(p, opts, text, goal, stage, exc):
             return K12
         if re.search(r"Can't normalize condition .*\b_c\d+\b", msg) and opts.get("transform_categoricals") and classgen.choice_inside_branch(p):
             return K16
+        if re.search(r"Can't normalize condition ", msg) and classgen.simult_in_branch_assigns_condition_variable(p):
+            return K20
     if et == "ArithmConversionException" and fn == "atom_cond.py:to_arithm":
         if re.fullmatch(r"Atom \w+ == -?\d+/\d+ is not normalized", msg) and classgen.has_nonint_constant(p):
             return K17
@@ -273,6 +277,8 @@ def run(ctx):
         return
     lib.coq_make(["theories/Search.vo", "theories/InClassWorklist.vo"])
     rng = ctx.rng
+    timing = {"coq_props": round(ctx.elapsed(), 1)}
+    t_ = time.time()
     n_in = ctx.pick(48, 480)
     n_out = ctx.pick(14, 120)
     N = 5
@@ -299,6 +305,8 @@ def run(ctx):
     rres = lib.run_tasks([{"kind": "accept", "text": texts[i], "opts": cases[i][1], "goals": [goals[i][1][gi]], "nvals": N + 1, "timeout": 60}
                           for i, gi in retry], timeout=60) if retry else []
     th.join()
+    timing["polar_and_class"] = round(time.time() - t_, 1)
+    t_ = time.time()
     cls = box.get("cls") or [None] * len(cases)
 
     # exact oracle for every program with at least one numeric result
@@ -309,6 +317,8 @@ def run(ctx):
             omap.append(i)
     exact = dict(zip(omap, oracle.exact_moments(ctx, ocases, timeout=200))) if ocases else {}
 
+    timing["oracle"] = round(time.time() - t_, 1)
+    t_ = time.time()
     shape_stat = {}
     exc_hist = {}
     class_stat = {"in_class": 0, "out_of_class": 0, "undecided": 0, "in-stream-not-in_class": 0, "out-stream-in_class": 0}
@@ -441,8 +451,14 @@ def run(ctx):
     refound = {k: (k in ctx.known_hits) for k in KNOWN_SHAPES}
     ctx.coverage["known_defects_refound"] = {k.split(":")[-1]: v for k, v in refound.items()}
 
+    timing["analysis"] = round(time.time() - t_, 1)
+    t_ = time.time()
     graph_part(ctx, ctx.pick(60, 600))
+    timing["graphs"] = round(time.time() - t_, 1)
+    t_ = time.time()
     worklist_part(ctx, wl_cases)
+    timing["worklist"] = round(time.time() - t_, 1)
+    ctx.coverage["timing_s"] = timing
 
     for st in shape_stat.values():
         st["acceptance_rate"] = round(st["accepted"] / st["programs"], 3) if st["programs"] else None
